@@ -354,7 +354,7 @@ int main(int argc, char** argv)
 {
     auto const a = vf::parse_args(argc, argv);
     report r(a);
-    ::mkdir("build/out/tmp", 0777);
+    ::mkdir("build", 0777); ::mkdir("build/out", 0777); ::mkdir("build/out/tmp", 0777);
     g_file = "build/out/tmp/c12_" + std::to_string(::getpid()) + ".chkpt";
 #if VF_PART_ENABLED(0)
     if (a.nshards == 1 || a.shard % 3 == 0) for_type<float>(r);
